@@ -47,6 +47,8 @@ func TestEngine(t *testing.T) {
 		runIncentives(t, seed, n, dir)
 	case "superfluid":
 		runSuperfluid(t, seed, n, dir)
+	case "det":
+		runDet(t, seed, n, dir)
 	case "cl":
 		runCL(t, seed, n, dir)
 	default:
